@@ -2,6 +2,8 @@ package c12
 
 import (
 	"fmt"
+	"math"
+	"reflect"
 	"strings"
 
 	ad "github.com/pbenner/autodiff"
@@ -50,6 +52,118 @@ type A struct {
 	V   int          // option combination
 	ops []*operand
 	opt []string
+	// results of the last call (for the repetition with the same option slice)
+	outs []any
+	// failure injection into objective functions: at evaluation failAt the
+	// objective returns an error (or NaN when failNaN)
+	failAt, evals int
+	failNaN       bool
+}
+
+// out records the results of a call.
+func (a *A) out(xs ...any) { a.outs = xs }
+
+// failBit consumes one option bit: the objective fails at one of its first evaluations.
+func (a *A) failBit() {
+	if a.bit("objective-fails") {
+		a.failAt = a.R.Range(1, 7)
+		a.failNaN = a.R.Chance(0.3)
+		if a.failNaN {
+			a.opt[len(a.opt)-1] = "objective-returns-NaN"
+		}
+	}
+}
+
+func (a *A) tick() (fail, nan bool) {
+	a.evals++
+	if a.failAt > 0 && a.evals >= a.failAt {
+		return true, a.failNaN
+	}
+	return false, false
+}
+
+func (a *A) objective(c, m []float64) func(ad.ConstVector) (ad.MagicScalar, error) {
+	f := quadratic(c, m)
+	return func(x ad.ConstVector) (ad.MagicScalar, error) {
+		if fail, nan := a.tick(); fail {
+			if nan {
+				r, _ := f(x)
+				r.SetFloat64(math.NaN())
+				return r, nil
+			}
+			return nil, fmt.Errorf("objective fails")
+		}
+		return f(x)
+	}
+}
+
+func (a *A) gradient(c, m []float64) func(x, g ad.DenseFloat64Vector) error {
+	f := quadraticGradient(c, m)
+	return func(x, g ad.DenseFloat64Vector) error {
+		if fail, nan := a.tick(); fail {
+			if nan {
+				for i := range g {
+					g[i] = math.NaN()
+				}
+				return nil
+			}
+			return fmt.Errorf("gradient fails")
+		}
+		return f(x, g)
+	}
+}
+
+// optSlice turns the options into a caller-owned slice with spare capacity
+// (Run(m, opts...) hands the callee the caller's array) and watches it: its
+// length, the identity of pointer options and the value of value options.
+func (a *A) optSlice(args []interface{}) []interface{} {
+	own := make([]interface{}, len(args), len(args)+3)
+	copy(own, args)
+	a.ops = append(a.ops, &operand{Name: "options-slice", Get: func() any {
+		full := own[:cap(own)]
+		d := make([]string, 0, len(full)+1)
+		d = append(d, fmt.Sprintf("len=%d", len(own)))
+		for _, x := range full {
+			d = append(d, describeOption(x))
+		}
+		return d
+	}})
+	return own
+}
+
+func describeOption(x any) string {
+	if x == nil {
+		return "nil"
+	}
+	v := reflect.ValueOf(x)
+	switch v.Kind() {
+	case reflect.Ptr:
+		return fmt.Sprintf("%T@%p", x, x) // in-situ structs are filled by design: identity only
+	case reflect.Struct:
+		// option values: the type and every field that is plain data
+		s := fmt.Sprintf("%T{", x)
+		for i := 0; i < v.NumField(); i++ {
+			f := v.Field(i)
+			switch f.Kind() {
+			case reflect.Func:
+				s += "func;"
+			case reflect.Ptr, reflect.Interface, reflect.Slice, reflect.Map:
+				if f.IsNil() {
+					s += "nil;"
+				} else if f.Kind() == reflect.Slice {
+					s += fmt.Sprintf("slice@%x/%d;", f.Pointer(), f.Len())
+				} else {
+					s += fmt.Sprintf("%s;", f.Type())
+				}
+			default:
+				if f.CanInterface() {
+					s += fmt.Sprintf("%v;", f.Interface())
+				}
+			}
+		}
+		return s + "}"
+	}
+	return fmt.Sprintf("%T", x)
 }
 
 // bit consumes one binary choice of the option combination.
@@ -252,6 +366,7 @@ func singles(specs []algSpec) []algSeqSpec {
 
 var algSpecs = []algSpec{
 	{"adam.Run", func(a *A) func() error {
+		a.failBit()
 		n := a.R.Range(1, 3)
 		c, m := a.quadSpec(n)
 		x0 := a.vecOf("x0", gen.Types[a.R.Intn(9)], a.randVals(n))
@@ -271,9 +386,11 @@ var algSpecs = []algSpec{
 		if a.bit("Constraints") {
 			args = append(args, adam.Constraints{Value: func(x ad.Vector) bool { return true }})
 		}
-		return func() error { _, err := adam.Run(quadratic(c, m), x0, args...); return err }
+		args = a.optSlice(args)
+		return func() error { r1, err := adam.Run(a.objective(c, m), x0, args...); a.out(r1); return err }
 	}},
 	{"adam.RunGradient", func(a *A) func() error {
+		a.failBit()
 		n := a.R.Range(1, 3)
 		c, m := a.quadSpec(n)
 		x0 := ad.NewDenseFloat64Vector(a.randVals(n))
@@ -288,8 +405,10 @@ var algSpecs = []algSpec{
 		if a.bit("ConstConstraints") {
 			args = append(args, adam.ConstConstraints{Value: func(x ad.ConstVector) bool { return true }})
 		}
+		args = a.optSlice(args)
 		return func() error {
-			_, err := adam.RunGradient(adam.DenseGradientF(quadraticGradient(c, m)), x0, args...)
+			r1, err := adam.RunGradient(adam.DenseGradientF(a.gradient(c, m)), x0, args...)
+			a.out(r1)
 			return err
 		}
 	}},
@@ -301,9 +420,11 @@ var algSpecs = []algSpec{
 		if a.bit("&InSitu{}") {
 			args = append(args, &backSubstitution.InSitu{})
 		}
-		return func() error { _, err := backSubstitution.Run(A_, b, args...); return err }
+		args = a.optSlice(args)
+		return func() error { r1, err := backSubstitution.Run(A_, b, args...); a.out(r1); return err }
 	}},
 	{"bfgs.Run", func(a *A) func() error {
+		a.failBit()
 		n := a.R.Range(1, 3)
 		c, m := a.quadSpec(n)
 		x0 := a.vecOf("x0", gen.Types[5+a.R.Intn(4)], a.randVals(n))
@@ -320,7 +441,8 @@ var algSpecs = []algSpec{
 		if a.bit("Constraints") {
 			args = append(args, bfgs.Constraints{Value: func(x ad.Vector) bool { return true }})
 		}
-		return func() error { _, err := bfgs.Run(quadratic(c, m), x0, args...); return err }
+		args = a.optSlice(args)
+		return func() error { r1, err := bfgs.Run(a.objective(c, m), x0, args...); a.out(r1); return err }
 	}},
 	{"blahut.Run", func(a *A) func() error {
 		n, m := a.R.Range(2, 3), a.R.Range(2, 3)
@@ -349,12 +471,13 @@ var algSpecs = []algSpec{
 			args = append(args, blahut.Hook{Value: func(ad.Vector, ad.Scalar) bool { return false }})
 		}
 		mi := a.bit("MI")
+		args = a.optSlice(args)
 		return func() error {
 			if mi {
 				blahut.MI(channel, pinit)
 				return nil
 			}
-			blahut.Run(channel, pinit, 12, args...)
+			a.out(blahut.Run(channel, pinit, 12, args...))
 			return nil
 		}
 	}},
@@ -369,7 +492,8 @@ var algSpecs = []algSpec{
 		if a.bit("Lambda") {
 			args = append(args, blahut.Lambda{Value: 0.9})
 		}
-		return func() error { blahut.RunNaive(channel, p, 12, args...); return nil }
+		args = a.optSlice(args)
+		return func() error { a.out(blahut.RunNaive(channel, p, 12, args...)); return nil }
 	}},
 	{"cholesky.Run", func(a *A) func() error {
 		n := a.R.Range(1, 4)
@@ -384,7 +508,8 @@ var algSpecs = []algSpec{
 		if a.bit("&InSitu{}") {
 			args = append(args, &cholesky.InSitu{})
 		}
-		return func() error { _, _, err := cholesky.Run(m, args...); return err }
+		args = a.optSlice(args)
+		return func() error { r1, r2, err := cholesky.Run(m, args...); a.out(r1, r2); return err }
 	}},
 	{"determinant.Run", func(a *A) func() error {
 		n := a.R.Range(1, 4)
@@ -402,7 +527,8 @@ var algSpecs = []algSpec{
 		} else {
 			m = a.matOf("a", a.randVals(n*n), n, n)
 		}
-		return func() error { _, err := determinant.Run(m, args...); return err }
+		args = a.optSlice(args)
+		return func() error { r1, err := determinant.Run(m, args...); a.out(r1); return err }
 	}},
 	{"eigensystem.Run", func(a *A) func() error {
 		n := a.R.Range(1, 4)
@@ -417,7 +543,8 @@ var algSpecs = []algSpec{
 		if a.bit("&InSitu{}") {
 			args = append(args, &eigensystem.InSitu{})
 		}
-		return func() error { _, _, err := eigensystem.Run(m, args...); return err }
+		args = a.optSlice(args)
+		return func() error { r1, r2, err := eigensystem.Run(m, args...); a.out(r1, r2); return err }
 	}},
 	{"gaussJordan.Run", func(a *A) func() error {
 		// a, x and b are worked on in place by design; the Submatrix mask is read-only
@@ -441,6 +568,7 @@ var algSpecs = []algSpec{
 			A_ = ad.AsDenseMatrix(a.T.T, ad.NewDenseFloat64Matrix(a.upperVals(n), n, n))
 			args = append(args, gaussJordan.UpperTriangular{Value: true})
 		}
+		args = a.optSlice(args)
 		return func() error { return gaussJordan.Run(A_, x, b, args...) }
 	}},
 	{"givensRotation.Run/Apply", func(a *A) func() error {
@@ -466,6 +594,7 @@ var algSpecs = []algSpec{
 		}
 	}},
 	{"gradientDescent.Run", func(a *A) func() error {
+		a.failBit()
 		n := a.R.Range(1, 3)
 		c, m := a.quadSpec(n)
 		x0 := a.vecOf("x0", gen.Types[a.R.Intn(9)], a.randVals(n))
@@ -474,7 +603,13 @@ var algSpecs = []algSpec{
 		if a.bit("Epsilon") {
 			args = append(args, gradientDescent.Epsilon{Value: 1e-6})
 		}
-		return func() error { _, err := gradientDescent.Run(quadratic(c, m), x0, 0.05, args...); return err }
+		args = a.optSlice(args)
+		return func() error {
+			steps = 0
+			r1, err := gradientDescent.Run(a.objective(c, m), x0, 0.05, args...)
+			a.out(r1)
+			return err
+		}
 	}},
 	{"gramSchmidt.Run", func(a *A) func() error {
 		n := a.R.Range(2, 4)
@@ -484,7 +619,8 @@ var algSpecs = []algSpec{
 		if a.bit("InSitu{Q,R}") {
 			args = append(args, gramSchmidt.InSitu{Q: ad.NullDenseMatrix(a.T.T, n, k), R: ad.NullDenseMatrix(a.T.T, n, k)})
 		}
-		return func() error { _, _, err := gramSchmidt.Run(m, args...); return err }
+		args = a.optSlice(args)
+		return func() error { r1, r2, err := gramSchmidt.Run(m, args...); a.out(r1, r2); return err }
 	}},
 	{"hessenbergReduction.Run", func(a *A) func() error {
 		n := a.R.Range(1, 5)
@@ -499,7 +635,8 @@ var algSpecs = []algSpec{
 		if a.bit("&InSitu{}") {
 			args = append(args, &hessenbergReduction.InSitu{})
 		}
-		return func() error { _, _, err := hessenbergReduction.Run(m, args...); return err }
+		args = a.optSlice(args)
+		return func() error { r1, r2, err := hessenbergReduction.Run(m, args...); a.out(r1, r2); return err }
 	}},
 	{"householder.Run/Apply", func(a *A) func() error {
 		n := a.R.Range(2, 4)
@@ -536,7 +673,12 @@ var algSpecs = []algSpec{
 		if a.bit("&InSitu{}") {
 			args = append(args, &householderBidiagonalization.InSitu{})
 		}
-		return func() error { _, _, _, err := householderBidiagonalization.Run(m, args...); return err }
+		args = a.optSlice(args)
+		return func() error {
+			r1, r2, r3, err := householderBidiagonalization.Run(m, args...)
+			a.out(r1, r2, r3)
+			return err
+		}
 	}},
 	{"householderTridiagonalization.Run", func(a *A) func() error {
 		n := a.R.Range(1, 5)
@@ -548,15 +690,20 @@ var algSpecs = []algSpec{
 		if a.bit("&InSitu{}") {
 			args = append(args, &householderTridiagonalization.InSitu{})
 		}
-		return func() error { _, _, err := householderTridiagonalization.Run(m, args...); return err }
+		args = a.optSlice(args)
+		return func() error { r1, r2, err := householderTridiagonalization.Run(m, args...); a.out(r1, r2); return err }
 	}},
 	{"lineSearch.Run", func(a *A) func() error {
+		a.failBit()
 		// no data operands besides the objective: the closure state is watched
 		c := []float64{1.5}
 		m := []float64{2}
 		a.watch("captured-c", c)
 		a.watch("captured-m", m)
 		f := func(alpha ad.ConstScalar) (ad.MagicScalar, error) {
+			if fail, _ := a.tick(); fail {
+				return nil, fmt.Errorf("objective fails")
+			}
 			x := ad.NewReal64(0)
 			x.Sub(alpha, ad.ConstFloat64(m[0]))
 			x.Mul(x, x)
@@ -567,7 +714,8 @@ var algSpecs = []algSpec{
 		if a.bit("Parameters") {
 			args = append(args, lineSearch.Parameters{Alpha1: 0.5, MaxEval: 10})
 		}
-		return func() error { _, err := lineSearch.Run(f, ad.Float64Type, args...); return err }
+		args = a.optSlice(args)
+		return func() error { r1, err := lineSearch.Run(f, ad.Float64Type, args...); a.out(r1); return err }
 	}},
 	{"matrixInverse.Run", func(a *A) func() error {
 		n := a.R.Range(1, 4)
@@ -594,23 +742,28 @@ var algSpecs = []algSpec{
 		if a.bit("&InSitu{}") {
 			args = append(args, &matrixInverse.InSitu{})
 		}
-		return func() error { _, err := matrixInverse.Run(m, args...); return err }
+		args = a.optSlice(args)
+		return func() error { r1, err := matrixInverse.Run(m, args...); a.out(r1); return err }
 	}},
 	{"msqrt.Run", func(a *A) func() error {
 		n := a.R.Range(1, 3)
 		m := a.matOf("matrix", a.spdVals(n), n, n)
-		return func() error { _, err := msqrt.Run(m); return err }
+		return func() error { r1, err := msqrt.Run(m); a.out(r1); return err }
 	}},
 	{"msqrtInv.Run", func(a *A) func() error {
 		n := a.R.Range(1, 3)
 		m := a.matOf("matrix", a.spdVals(n), n, n)
-		return func() error { _, err := msqrtInv.Run(m); return err }
+		return func() error { r1, err := msqrtInv.Run(m); a.out(r1); return err }
 	}},
 	{"newton.RunRoot", func(a *A) func() error {
+		a.failBit()
 		n := a.R.Range(1, 3)
 		c, m := a.quadSpec(n)
 		x := a.vecOf("x", gen.Types[5+a.R.Intn(4)], a.randVals(n))
 		f := func(x ad.ConstVector) (ad.MagicVector, error) {
+			if fail, _ := a.tick(); fail {
+				return nil, fmt.Errorf("objective fails")
+			}
 			y := ad.NullDenseReal64Vector(x.Dim())
 			for i := 0; i < x.Dim(); i++ {
 				s := y.At(i)
@@ -632,9 +785,11 @@ var algSpecs = []algSpec{
 		if a.bit("&InSitu{}") {
 			args = append(args, &newton.InSitu{})
 		}
-		return func() error { _, err := newton.RunRoot(f, x, args...); return err }
+		args = a.optSlice(args)
+		return func() error { r1, err := newton.RunRoot(f, x, args...); a.out(r1); return err }
 	}},
 	{"newton.RunCrit/RunMin", func(a *A) func() error {
+		a.failBit()
 		n := a.R.Range(1, 3)
 		c, m := a.quadSpec(n)
 		x := a.vecOf("x", gen.Types[5+a.R.Intn(4)], a.randVals(n))
@@ -649,12 +804,15 @@ var algSpecs = []algSpec{
 		if a.bit("Constraints") {
 			args = append(args, newton.Constraints{Value: func(ad.Vector) bool { return true }})
 		}
+		args = a.optSlice(args)
 		return func() error {
 			if min {
-				_, err := newton.RunMin(quadratic(c, m), x, args...)
+				r1, err := newton.RunMin(a.objective(c, m), x, args...)
+				a.out(r1)
 				return err
 			}
-			_, err := newton.RunCrit(quadratic(c, m), x, args...)
+			r1, err := newton.RunCrit(a.objective(c, m), x, args...)
+			a.out(r1)
 			return err
 		}
 	}},
@@ -671,9 +829,11 @@ var algSpecs = []algSpec{
 		if a.bit("&InSitu{}") {
 			args = append(args, &qrAlgorithm.InSitu{})
 		}
-		return func() error { _, _, err := qrAlgorithm.Run(m, args...); return err }
+		args = a.optSlice(args)
+		return func() error { r1, r2, err := qrAlgorithm.Run(m, args...); a.out(r1, r2); return err }
 	}},
 	{"rprop.Run", func(a *A) func() error {
+		a.failBit()
 		n := a.R.Range(1, 3)
 		c, m := a.quadSpec(n)
 		x0 := a.vecOf("x0", gen.Types[a.R.Intn(9)], a.randVals(n))
@@ -689,9 +849,11 @@ var algSpecs = []algSpec{
 		if a.bit("Constraints") {
 			args = append(args, rprop.Constraints{Value: func(ad.Vector) bool { return true }})
 		}
-		return func() error { _, err := rprop.Run(quadratic(c, m), x0, 0.1, eta, args...); return err }
+		args = a.optSlice(args)
+		return func() error { r1, err := rprop.Run(a.objective(c, m), x0, 0.1, eta, args...); a.out(r1); return err }
 	}},
 	{"rprop.RunGradient", func(a *A) func() error {
+		a.failBit()
 		n := a.R.Range(1, 3)
 		c, m := a.quadSpec(n)
 		x0 := ad.NewDenseFloat64Vector(a.randVals(n))
@@ -705,12 +867,15 @@ var algSpecs = []algSpec{
 		if a.bit("ConstConstraints") {
 			args = append(args, rprop.ConstConstraints{Value: func(ad.ConstVector) bool { return true }})
 		}
+		args = a.optSlice(args)
 		return func() error {
-			_, err := rprop.RunGradient(rprop.DenseGradientF(quadraticGradient(c, m)), x0, 0.1, eta, args...)
+			r1, err := rprop.RunGradient(rprop.DenseGradientF(a.gradient(c, m)), x0, 0.1, eta, args...)
+			a.out(r1)
 			return err
 		}
 	}},
 	{"saga.Run", func(a *A) func() error {
+		a.failBit()
 		// least squares on n samples: f_i(theta) = (theta . x_i - y_i)^2 / 2
 		nS, d := a.R.Range(3, 6), a.R.Range(1, 3)
 		X := make([]ad.DenseFloat64Vector, nS)
@@ -723,6 +888,12 @@ var algSpecs = []algSpec{
 		a.watch("labels", y)
 		theta := a.vecOf("x", gen.Types[5+a.R.Intn(4)], a.randVals(d))
 		obj := saga.Objective1Dense(func(i int, th ad.DenseFloat64Vector) (float64, float64, ad.DenseFloat64Vector, error) {
+			if fail, nan := a.tick(); fail {
+				if nan {
+					return math.NaN(), math.NaN(), X[i], nil
+				}
+				return 0, 0, nil, fmt.Errorf("objective fails")
+			}
 			s := 0.0
 			for k := range th {
 				s += th[k] * X[i][k]
@@ -749,7 +920,48 @@ var algSpecs = []algSpec{
 		if a.bit("&InSitu{}") {
 			args = append(args, &saga.InSitu{})
 		}
-		return func() error { _, _, err := saga.Run(obj, nS, theta, args...); return err }
+		args = a.optSlice(args)
+		return func() error { r1, r2, err := saga.Run(obj, nS, theta, args...); a.out(r1, r2); return err }
+	}},
+	{"saga.Run(sparse)", func(a *A) func() error {
+		a.failBit()
+		nS, d := a.R.Range(3, 6), a.R.Range(1, 3)
+		X := make([]ad.SparseConstFloat64Vector, nS)
+		y := make([]float64, nS)
+		for i := range X {
+			X[i] = ad.AsSparseConstFloat64Vector(ad.NewDenseFloat64Vector(a.randVals(d)))
+			y[i] = float64(a.R.Range(-4, 4))
+		}
+		a.watch("labels", y)
+		theta := a.vecOf("x", gen.Types[5+a.R.Intn(4)], a.randVals(d))
+		obj := saga.Objective1Sparse(func(i int, th ad.DenseFloat64Vector) (float64, float64, ad.SparseConstFloat64Vector, error) {
+			if fail, nan := a.tick(); fail {
+				if nan {
+					return math.NaN(), math.NaN(), X[i], nil
+				}
+				return 0, 0, X[i], fmt.Errorf("objective fails")
+			}
+			s := 0.0
+			for k := range th {
+				s += th[k] * X[i].Float64At(k)
+			}
+			return 0.5 * (s - y[i]) * (s - y[i]), s - y[i], X[i], nil
+		})
+		args := []interface{}{saga.MaxIterations{Value: 5}, saga.Gamma{Value: 0.01}}
+		if a.bit("JitUpdate") {
+			p := &saga.JitUpdateL1{Lambda: 0.4}
+			a.ops = append(a.ops, &operand{Name: "JitUpdate.Value.Lambda", Get: func() any { return []float64{p.Lambda} }})
+			args = append(args, saga.JitUpdate{Value: p})
+		} else if a.bit("ProximalOperator") {
+			p := &saga.ProximalOperatorL2{Lambda: 0.4}
+			a.ops = append(a.ops, &operand{Name: "ProximalOperator.Value.Lambda", Get: func() any { return []float64{p.Lambda} }})
+			args = append(args, saga.ProximalOperator{Value: p})
+		}
+		if a.bit("Epsilon") {
+			args = append(args, saga.Epsilon{Value: 1e-6})
+		}
+		args = a.optSlice(args)
+		return func() error { r1, r2, err := saga.Run(obj, nS, theta, args...); a.out(r1, r2); return err }
 	}},
 	{"svd.Run", func(a *A) func() error {
 		n := a.R.Range(1, 3)
@@ -765,7 +977,8 @@ var algSpecs = []algSpec{
 		if a.bit("&InSitu{}") {
 			args = append(args, &svd.InSitu{})
 		}
-		return func() error { _, _, _, err := svd.Run(m, args...); return err }
+		args = a.optSlice(args)
+		return func() error { r1, r2, r3, err := svd.Run(m, args...); a.out(r1, r2, r3); return err }
 	}},
 }
 
@@ -780,6 +993,7 @@ type algResult struct {
 	Detail  string
 	Before  string
 	After   string
+	Kind    string // failure kind ("" = modified)
 }
 
 func runAlg(spec algSeqSpec, r *prng.Rand, t gen.ElemType, v int) (res algResult) {
@@ -840,6 +1054,39 @@ func runAlg(spec algSeqSpec, r *prng.Rand, t gen.ElemType, v int) (res algResult
 			return
 		}
 	}
+	// the same call once more with the very same option slice and inputs: the
+	// result must be the one of the first call (not with in-situ buffers, whose
+	// reuse is governed by their own flags, and not after an injected failure)
+	opts := strings.Join(a.opt, ",")
+	if len(calls) == 1 && res.Outcome == "returned" && a.outs != nil && !strings.Contains(opts, "InSitu") && a.failAt == 0 {
+		first := make([]shot, len(a.outs))
+		for i, o := range a.outs {
+			first[i] = take(o)
+		}
+		a.outs = nil
+		fw.SetTickBudget(20000)
+		p := fw.Call(func() { calls[0]() })
+		fw.SetTickBudget(0)
+		if p != nil && p.Budget {
+			return
+		}
+		for _, o := range a.ops {
+			if d := o.changed(); d != "" {
+				res.Arg, res.Detail, res.Before, res.After = o.Name, "after the second call with the same options: "+d, clip(o.S0.Str, 400), safeString(o.cur())
+				return
+			}
+		}
+		if p == nil && len(a.outs) == len(first) {
+			for i, o := range a.outs {
+				if d := unchanged(first[i], take(o)); d != "" {
+					res.Arg, res.Detail = fmt.Sprintf("result[%d]", i), "a second call with the same inputs and the same option slice returns another result: "+d
+					res.Before, res.After = clip(first[i].Str, 400), safeString(o)
+					res.Kind = "second-call-differs"
+					return
+				}
+			}
+		}
+	}
 	return
 }
 
@@ -877,13 +1124,17 @@ func algCase(cs *fw.Case, monitor string, specs []algSeqSpec) {
 			continue
 		}
 		w := v &^ (1 << bit)
-		if r2 := runAlg(spec, prng.For(cs.C.Seed, cs.Monitor, cs.Index), t, w); r2.Skip == "" && r2.Arg == res.Arg {
+		if r2 := runAlg(spec, prng.For(cs.C.Seed, cs.Monitor, cs.Index), t, w); r2.Skip == "" && r2.Arg == res.Arg && r2.Kind == res.Kind {
 			v, opts = w, r2.Opts
 		}
 	}
 	w := map[string]any{"routine": spec.Name, "options": res.Opts, "minimal_options": opts, "operands": res.Cfg, "element_type": t.Name, "outcome": res.Outcome,
 		"operand_before": res.Before, "operand_after": res.After}
-	cs.Violation(sig(monitor, spec.Name, opts, "arg="+res.Arg, "modified"), fmt.Sprintf("input %s changed during the call (%s): %s", res.Arg, res.Outcome, res.Detail), w)
+	kind := "modified"
+	if res.Kind != "" {
+		kind = res.Kind
+	}
+	cs.Violation(sig(monitor, spec.Name, opts, "arg="+res.Arg, kind), fmt.Sprintf("input %s changed during the call (%s): %s", res.Arg, res.Outcome, res.Detail), w)
 }
 
 /* consecutive calls that reuse one InSitu object: the inputs of every earlier
@@ -938,6 +1189,7 @@ var algReuseSpecs = []algSeqSpec{
 		if a.bit("Symmetric") {
 			args = append(args, eigensystem.Symmetric{Value: true})
 		}
+		args = a.optSlice(args)
 		return a.seq(func(k int) func() error {
 			m := a.matOf(tag("a", k), a.symVals(n), n, n)
 			return func() error { _, _, err := eigensystem.Run(m, args...); return err }
@@ -952,6 +1204,7 @@ var algReuseSpecs = []algSeqSpec{
 		if a.bit("SetZero{false}") {
 			args = append(args, hessenbergReduction.SetZero{Value: false})
 		}
+		args = a.optSlice(args)
 		return a.seq(func(k int) func() error {
 			m := a.matOf(tag("a", k), a.randVals(n*n), n, n)
 			return func() error { _, _, err := hessenbergReduction.Run(m, args...); return err }
@@ -967,6 +1220,7 @@ var algReuseSpecs = []algSeqSpec{
 		if a.bit("ComputeV") {
 			args = append(args, householderBidiagonalization.ComputeV{Value: true})
 		}
+		args = a.optSlice(args)
 		return a.seq(func(k int) func() error {
 			m := a.matOf(tag("a", k), a.randVals(mrows*n), mrows, n)
 			return func() error { _, _, _, err := householderBidiagonalization.Run(m, args...); return err }
@@ -978,6 +1232,7 @@ var algReuseSpecs = []algSeqSpec{
 		if a.bit("ComputeU") {
 			args = append(args, householderTridiagonalization.ComputeU{Value: true})
 		}
+		args = a.optSlice(args)
 		return a.seq(func(k int) func() error {
 			m := a.matOf(tag("a", k), a.symVals(n), n, n)
 			return func() error { _, _, err := householderTridiagonalization.Run(m, args...); return err }
@@ -993,6 +1248,7 @@ var algReuseSpecs = []algSeqSpec{
 		if a.bit("ComputeV") {
 			args = append(args, svd.ComputeV{Value: true})
 		}
+		args = a.optSlice(args)
 		return a.seq(func(k int) func() error {
 			m := a.matOf(tag("a", k), a.randVals(mrows*n), mrows, n)
 			return func() error { _, _, _, err := svd.Run(m, args...); return err }
@@ -1007,6 +1263,7 @@ var algReuseSpecs = []algSeqSpec{
 				args = append(args, cholesky.ForcePD{Value: true})
 			}
 		}
+		args = a.optSlice(args)
 		return a.seq(func(k int) func() error {
 			m := a.matOf(tag("a", k), a.spdVals(n), n, n)
 			return func() error { _, _, err := cholesky.Run(m, args...); return err }
@@ -1018,6 +1275,7 @@ var algReuseSpecs = []algSeqSpec{
 		if a.bit("LogScale") {
 			args = append(args, determinant.LogScale{Value: true})
 		}
+		args = a.optSlice(args)
 		return a.seq(func(k int) func() error {
 			m := a.matOf(tag("a", k), a.spdVals(n), n, n)
 			return func() error { _, err := determinant.Run(m, args...); return err }
@@ -1034,6 +1292,7 @@ var algReuseSpecs = []algSeqSpec{
 			upper = true
 			args = append(args, matrixInverse.UpperTriangular{Value: true})
 		}
+		args = a.optSlice(args)
 		return a.seq(func(k int) func() error {
 			vals := a.spdVals(n)
 			if upper {
@@ -1046,6 +1305,7 @@ var algReuseSpecs = []algSeqSpec{
 	{Name: "backSubstitution.Run", BuildSeq: func(a *A) []func() error {
 		n := a.R.Range(1, 4)
 		args := []interface{}{&backSubstitution.InSitu{}}
+		args = a.optSlice(args)
 		return a.seq(func(k int) func() error {
 			A_ := a.matOf(tag("A", k), a.upperVals(n), n, n)
 			b := a.vecOf(tag("b", k), a.T, a.randVals(n))
@@ -1067,6 +1327,7 @@ var algReuseSpecs = []algSeqSpec{
 		if a.bit("Epsilon") {
 			args = append(args, newton.Epsilon{Value: 1e-6})
 		}
+		args = a.optSlice(args)
 		return a.seq(func(k int) func() error {
 			c, m := a.quadSpec(n)
 			x := a.vecOf(tag("x", k), gen.Types[5+a.R.Intn(4)], a.randVals(n))
@@ -1089,6 +1350,7 @@ var algReuseSpecs = []algSeqSpec{
 		if a.bit("HessianModification{LDL}") {
 			args = append(args, newton.HessianModification{Value: "LDL"})
 		}
+		args = a.optSlice(args)
 		return a.seq(func(k int) func() error {
 			c, m := a.quadSpec(n)
 			x := a.vecOf(tag("x", k), gen.Types[5+a.R.Intn(4)], a.randVals(n))
@@ -1108,6 +1370,7 @@ var algReuseSpecs = []algSeqSpec{
 		if a.bit("L1Regularization") {
 			args = append(args, saga.L1Regularization{Value: 0.1})
 		}
+		args = a.optSlice(args)
 		return a.seq(func(k int) func() error {
 			X := make([]ad.DenseFloat64Vector, nS)
 			y := make([]float64, nS)
